@@ -29,7 +29,7 @@ ASSUMPTIONS = [
 ]
 BOUNDS = {
     "quick": {"program_size": 2, "stacks": "14 probing-route stacks (<=2 handlers) + 6 tooled-route stacks"},
-    "thorough": {"program_size": 3, "stacks": "all probing-route stacks of <=2 handlers over 8 handler kinds, curated triples, 12 tooled-route stacks"},
+    "thorough": {"program_size": "2 over the full menu, 3 over the core and control menus", "stacks": "all probing-route stacks of <=2 handlers over 8 handler kinds, curated triples, 12 tooled-route stacks"},
 }
 CHUNK = 6
 DECLINE = object()
@@ -113,7 +113,7 @@ def program_sets(tier):
     """General menu at the common size bound with the full stack list; a control-flow menu one size
     larger (else suites, handlers, finally blocks) with a short stack list."""
     return [("gen", dict()), ("ctl", dict(size=C.SIZE[tier] + 1, only=SMALL_CTL, key=("c04ctl", tier))),
-            C.odd_set(tier)]
+            C.odd_set(tier)] + C.core3_sets(tier)
 
 
 def units(tier):
